@@ -25,7 +25,7 @@ RULES = [
     Rule('C07.R2', 'data bytes consumed per status byte follow the SMF length table and are bounds-checked for exactly that length', 4),
     Rule('C07.R3', 'track/channel gating dominates delivery; track-0 timing events are exempt', 4),
     Rule('C07.R4', 'same-tick ordering buckets and a consistent note-state index', 3),
-    Rule('C07.R5', 'reported length is the latest row time plus the one-second post-song delay', 2),
+    Rule('C07.R5', 'reported length is the latest row time plus the one-second post-song delay; a stored row whose delay is dropped gives its ticks back to the running tick position', 3),
     Rule('C07.R6', 'the delay to the next row is converted with the tempo in force after the row\'s events were handled', 1),
     Rule('C07.R8', 'loading a song resets the track / channel gating state: the gating members are re-initialised and every table sized by the new track count is emptied first', 5),
     Rule('C07.R9', 'the tempo multiplier is applied where time is subtracted (Tick): its setter does not rescale the pending song time', 1),
@@ -267,6 +267,7 @@ def analyse(facts, tier):
                 if ap[2] == '+=' and short(strip(ap[1]).get('n', '')) == 'm_postSongWaitDelay':
                     add = True
     obls.append(Obl('C07.R5', bt.name, 'length = max row time + post-song delay', bt.loc, 'discharged' if (mx and add) else 'finding', why='max over rows, then += m_postSongWaitDelay' if (mx and add) else 'length computation differs (max=%s, add=%s)' % (mx, add)))
+    obls += r5_rows_on_their_ticks(facts)
     obls += r6(facts)
     obls += r7(facts)
     obls += r8_load_reset(facts)
@@ -274,6 +275,49 @@ def analyse(facts, tier):
     obls += r10_varlen_exits(facts)
     return obls
 
+
+
+def r5_rows_on_their_ticks(facts):
+    """buildTimeLine() computes row times from the rows' tick positions wherever the tempo changes between two rows, and from their
+    delays elsewhere: the two agree only while every row stands at the tick `position of the row before + its delay`.  The builder
+    keeps a running tick counter (the local stored into `<row>.absPos`, advanced by `<row>.delay`).  A store that changes the delay
+    of a row that is already in the track (the end-silence skip zeroes it) must give the same ticks back to the counter first."""
+    out = []
+    fn = facts.fn(SEQ + '::buildSmfTrackData')
+    counter = None
+    for b, j, st in fn.cfg.stmts():
+        for x in walk(st['s']):
+            ap = assign_parts(x)
+            if ap and ap[2] == '=' and strip(ap[0]).get('k') == 'MemberExpr' and short(strip(ap[0])['n']) == 'absPos' and strip(ap[1]).get('k') == 'DeclRefExpr':
+                counter = strip(ap[1])['id']
+    if counter is None:
+        raise build.AnalysisBroken('C07.R5: the running tick counter of buildSmfTrackData (stored into <row>.absPos) not found')
+    al = alias_defs(fn.d)
+    n = 0
+    for b, j, st in fn.cfg.stmts():
+        for x in walk(st['s']):
+            ap = assign_parts(x)
+            if not (ap and strip(ap[0]).get('k') == 'MemberExpr' and short(strip(ap[0])['n']) == 'delay'):
+                continue
+            base = strip(strip(ap[0]).get('b') or {})
+            # a row that is already stored in the track: a reference bound to an element of m_trackData
+            if not (base.get('k') == 'DeclRefExpr' and base.get('id') in al and mentions(al[base['id']], member_named('m_trackData'))):
+                continue
+            n += 1
+            given_back = False
+            for j2, st2 in enumerate(fn.cfg.blocks[b]['stmts'][:j]):
+                for y in walk(st2['s']):
+                    ap2 = assign_parts(y)
+                    if ap2 and ap2[2] == '-=' and strip(ap2[0]).get('id') == counter and show(strip(ap2[1])) == show(strip(ap[0])):
+                        given_back = True
+            ok = given_back or (ap[2] != '=')
+            out.append(Obl('C07.R5', fn.name, 'stored row: %s' % show(x)[:40], st['loc'], 'discharged' if ok else 'finding',
+                           why='the tick counter gives the dropped delay back first: the next row stands at this row\'s tick' if ok else
+                           'the delay of a stored row is changed but the running tick position keeps it: the next row stays at its file tick, and where a tempo change falls in between, '
+                           'buildTimeLine recomputes the row time from the tick positions - the skipped silence comes back into the row times and the reported length'))
+    if n < 1:
+        raise build.AnalysisBroken('C07.R5: the end-silence store to a stored row\'s delay was not found')
+    return out
 
 
 def r6(facts):
